@@ -17,6 +17,7 @@ import (
 	clientv3 "go.etcd.io/etcd/client/v3"
 
 	"github.com/gotid/god/lib/discov"
+	"github.com/gotid/god/lib/discov/internal"
 	"github.com/gotid/god/lib/logx"
 	"verif.local/vk"
 )
@@ -386,6 +387,11 @@ func TestVerifC15GetRetry(t *testing.T) {
 	m := vk.New(t, "C15", "reload whose first Get fails (injected): after the retry "+c15Rule)
 	defer m.Done()
 	defer c15Wall(m, time.Now())
+	// The requests carry a short timeout, far shorter than the cool-down between retries
+	// (1 s): a retry must be issued with a fresh deadline.
+	saved := internal.RequestTimeout
+	internal.RequestTimeout = 300 * time.Millisecond
+	defer func() { internal.RequestTimeout = saved }()
 	kinds := map[string]int64{}
 	n := vk.N(2, 12)
 	for idx := 1; idx <= n; idx++ {
